@@ -930,8 +930,8 @@ func checkAgg(r *listRec, how int, mode string, shift uint) error {
 }
 
 // checkObjViews: C14 on one object.
-func checkObjViews(r *listRec, keys []string) error {
-	c := newVconc("id", 0)
+func checkObjViews(r *listRec, keys []string, mode string) error {
+	c := newVconc(mode, 0)
 	o := at.NewObject()
 	type kv struct {
 		k string
@@ -1106,7 +1106,10 @@ func runViewsRecord(family string, r *listRec, seed int64, count *int64) (string
 		}
 		run("history", func() error { return checkViewsHistory(r) })
 	case "objviews":
-		run("object", func() error { return checkObjViews(r, keys) })
+		// also on the zero value of every kind ("" 0 0.0 false, empty containers)
+		if run("object", func() error { return checkObjViews(r, keys, "id") }) {
+			run("object conc=zerovals", func() error { return checkObjViews(r, keys, "zerovals") })
+		}
 	case "sort":
 		for how := 0; how < 4; how++ {
 			for _, mode := range []string{"id", "extreme", "zeros"} {
